@@ -360,4 +360,43 @@ Section SameCost.
   Qed.
 End SameCost.
 
+
+(* ------------------------------------------------------------------ edge-oriented queries *)
+(* run_edge_oriented (as of /repo 393b35c) wraps the vertex-oriented search between the far end b1 of the origin edge
+   and the near end a2 of the destination edge: whatever property [Opt] the vertex-oriented algorithm guarantees for its
+   single route holds for the part of the edge-oriented route between the two query edges (which are added with
+   zero cost).  Instantiate [Opt] with the conclusion of dijkstra_optimal / astar_optimal. *)
+Section EdgeOriented.
+  Context {C St : Type}.
+  Variable czero : C.
+  Variable g : graph.
+  Variable traverse : dir -> nat -> option nat -> St -> res (C * C * St).
+  Variable init_state : res St.
+  Variable d : dir.
+  Variable alg : nat -> option nat -> res (sresult C St).
+  Variable Opt : nat -> nat -> list (etrav C St) -> Prop.
+  Hypothesis Halg : forall s t res, alg s (Some t) = Ok res -> exists r, r_routes res = [r] /\ Opt s t r.
+
+  Theorem edge_oriented_optimal e1 e2 ed1 ed2 res :
+      get_edge g e1 = Some ed1 -> get_edge g e2 = Some ed2 -> e1 <> e2 ->
+      key_vertex d ed1 <> term_vertex d ed2 ->
+      run_edge_oriented czero g traverse init_state d alg e1 (Some e2) = Ok res ->
+      exists r first last,
+        r_routes res = [first :: r ++ [last]]
+        /\ et_edge first = e1 /\ et_edge last = e2
+        /\ et_access first = czero /\ et_trav first = czero /\ et_access last = czero /\ et_trav last = czero
+        /\ Opt (key_vertex d ed1) (term_vertex d ed2) r.
+  Proof.
+    intros H1 H2 Hne Hadj. unfold run_edge_oriented. rewrite H1.
+    destruct init_state as [init| | |]; cbn [bind]; try discriminate. rewrite H2.
+    apply Nat.eqb_neq in Hne. rewrite Hne. apply Nat.eqb_neq in Hadj. rewrite Hadj.
+    destruct (alg (key_vertex d ed1) (Some (term_vertex d ed2))) as [r0| | |] eqn:Ea; cbn [bind]; try discriminate.
+    destruct (Halg _ _ _ Ea) as [r [Hr Ho]].
+    destruct (Nat.eqb (List.length (r_trees r0)) 0); [discriminate|]. rewrite Hr.
+    destruct (last r) as [fin|] eqn:El; cbn [bind]; try discriminate.
+    intros H; injection H as <-. cbn [r_routes].
+    exists r, (mkEt e1 czero czero init), (mkEt e2 czero czero (et_state fin)). repeat split; auto.
+  Qed.
+End EdgeOriented.
+
 End OptimalInst.
